@@ -4,7 +4,7 @@
    the next input i; `all_events init ins` / `all_cmds init ins` are the complete logs. *)
 From Coq Require Import ZArith List Bool.
 From Common Require Import Res Str.
-From Audio Require Import Model Spec Mixer Obs Monitor
+From Audio Require Import Model Spec Mixer Obs Monitor Utils Proofs_Utils
   Proofs_Monitor Proofs_Glue Proofs_Run Proofs_State Proofs_Stream Proofs_Tags Proofs_Buffering Proofs_Mixer.
 Import ListNotations.
 Open Scope Z_scope.
@@ -352,6 +352,35 @@ Theorem C06_seek_position_roundtrip : forall w ms ok,
   o_ret (snd (step w (GetPosition true (ms * MSECOND)))) = Ok (RPos ms).
 Proof. exact seek_position_roundtrip. Qed.
 Print Assumptions C06_seek_position_roundtrip.
+
+(* ------------------------------------------------------------------ utils.py helpers *)
+
+Theorem C06_signals_balanced : forall ops, balance [] (scalls [] ops) = Some (sfinal [] ops).
+Proof. exact signals_balanced. Qed.
+Print Assumptions C06_signals_balanced.
+
+Theorem C06_clear_disconnects_everything : forall ops,
+  balance [] (scalls [] (ops ++ [SClear])) = Some [].
+Proof. exact clear_disconnects_everything. Qed.
+Print Assumptions C06_clear_disconnects_everything.
+
+Theorem C06_connect_twice_raises : forall t k h,
+  t_get k t <> None -> sstep t (SConnect k h) = (t, (Raise AssertionError, [])).
+Proof. exact connect_twice_raises. Qed.
+Print Assumptions C06_connect_twice_raises.
+
+Theorem C06_disconnect_idempotent : forall ops k,
+  let t := sfinal [] ops in
+  let t1 := fst (sstep t (SDisconnect k)) in
+  sstep t1 (SDisconnect k) = (t1, (Ok tt, [])).
+Proof. exact disconnect_idempotent. Qed.
+Print Assumptions C06_disconnect_idempotent.
+
+Theorem C06_supported_uri_schemes_spec : forall factories wanted s,
+  In s (supported_uri_schemes factories wanted) <->
+  In s wanted /\ exists protos, In protos factories /\ In s protos.
+Proof. exact supported_spec. Qed.
+Print Assumptions C06_supported_uri_schemes_spec.
 
 (* ------------------------------------------------------------------ monitors *)
 
